@@ -132,6 +132,9 @@ def body_api(case, rec):
         return
     outs = [(key_lc(k), s.name, conv.plain_rows(s.rows, with_tags=False)) for k, s in res.all_scaffolds()]
     try:
+        keys = [key_lc(k) for k in res.assemblies]
+        if len(set(keys)) != len(keys):
+            raise Violation(f"one haplotype is split over several assemblies that differ only in case: {list(res.assemblies)}")
         judge(case, outs, classes)
     finally:
         rec.note(case, nontrivial(classes), classes | {"completed"})
